@@ -19,7 +19,9 @@ func NewSimpleQueue[T any](name string, tracer MetricsTracer[T]) *SimpleQueue[T]
 		name:    name,
 		metrics: tracer,
 		list:    list.New(),
-		signal:  make(chan struct{}),
+		// capacity 1: a signal sent while the consumer is between releasing
+		// the lock and parking in select must not be lost
+		signal: make(chan struct{}, 1),
 	}
 }
 
